@@ -2,11 +2,20 @@
 // Spliced into src/socket/dns.rs: private fields of `Socket`, `DnsQuery`, `PendingQuery` and the
 // free functions `eq_names` / `copy_name` are reachable.
 //
-// `dns_process_<form>`: one pending query made through the real API, its private fields then
-// overwritten with symbolic values; the response is an RFC 1035 *byte template* written here
-// (concrete record layout per form, symbolic field values); every obligation is decided against a
-// reference evaluated on the raw template fields (`ref_names_eq` is an independent RFC 1035 4.1.4
-// name comparison, the crate's parser is not used by the oracle).
+// `dns_process_<form>`: one pending query made through the real API (`Socket::new`, `start_query`), its
+// private fields then overwritten with symbolic values; the response is an RFC 1035 *byte template*
+// written here (concrete record layout per form, symbolic field values); every obligation is decided
+// against a reference evaluated on the raw template fields (`ref_names_eq` is an independent RFC 1035
+// 4.1.4 name comparison; the crate's parser is not used by the oracle).
+//
+// Why the forms are so concrete (all measured, see the comments at `PAD`, `Owner`, `Rd`, `dns_env!`):
+// the pending query lives inside `enum State`, and CBMC does not constant-propagate reads through an
+// enum payload, so every `p.parse_name(&pq.name)` is explored as if the stored name were arbitrary;
+// on top of that any parser result that fails under a *symbolic* condition comes back as a merged
+// pointer which symbolic execution follows into every object.  Fields that decide parser errors
+// (CLASS, TYPE, RDLENGTH, pointer targets, truncation length) are therefore concrete per form and the
+// forms are enumerated; label bytes, RDATA, TTL, id, flags, the four counts, the question type, the
+// source address and both ports are symbolic in every form.  One `process` call costs ~60 s / 3 GB.
 #[allow(dead_code, unused_imports, unused_variables, unused_mut, unused_assignments)]
 mod v_socket_dns {
     use super::*;
@@ -640,123 +649,151 @@ mod v_socket_dns {
         }};
     }
 
-    // @harness props=C19,C03 cfg=KN tier=q to=900 mem=6 unwind=7 opts=nomem covers=6 funcs=dns::Socket::accepts;dns::Socket::process;dns::Socket::start_query;wire::dns::Packet::parse_name;wire::dns::Question::parse;wire::dns::Record::parse;wire::dns::RecordData::parse;dns::eq_names;dns::copy_name bounds=query_name_<1>x<1>y_with_symbolic_label_bytes,_type_A_or_AAAA,_txid/port/timers_symbolic;_response_=_byte_template_with_symbolic_id/flags/QDCOUNT/ANCOUNT/NSCOUNT/ARCOUNT,_question_<1>x<1>y_with_symbolic_label_bytes_and_TYPE,_concrete_record_layout_per_arm_with_symbolic_TTL/RDATA;_source_any_IPv4_or_2001:db8::x,_ports_any;_arms:_one_answer_record_owned_by_pointer_0xc00c,_TYPE_A_/_TYPE_AAAA
+    // @harness props=C19,C03 cfg=KN tier=q to=900 mem=6 unwind=7 opts=nomem covers=5 funcs=dns::Socket::accepts;dns::Socket::process;dns::Socket::start_query;wire::dns::Packet::parse_name;wire::dns::Question::parse;wire::dns::Record::parse;wire::dns::RecordData::parse;dns::eq_names;dns::copy_name bounds=query_name_<1>x<1>y_with_symbolic_label_bytes,_type_A_or_AAAA,_txid/port/timers_symbolic;_response_=_byte_template_with_symbolic_id/flags/QDCOUNT/ANCOUNT/NSCOUNT/ARCOUNT,_question_<1>x<1>y_with_symbolic_label_bytes_and_TYPE,_concrete_record_layout_per_arm_with_symbolic_TTL/RDATA;_source_any_IPv4_or_2001:db8::x,_ports_any;_one_A_record_owned_by_pointer_0xc00c
     #[kani::proof]
-    pub(crate) fn dns_process_ptrq() {
-        let (sel, o) = one_of!(Form { complete: true, ..F_ONE }, Form { rd: [Rd::Aaaa, Rd::A], complete: true, ..F_ONE });
-        kani::cover!(o.completed && o.naddr == 1 && o.first_is_v4 && sel == 0, "query completed with one IPv4 address");
-        kani::cover!(o.completed && !o.first_is_v4 && sel == 1, "query completed with one IPv6 address");
+    pub(crate) fn dns_process_ptrq_a() {
+        let o = process_form(Form { complete: true, ..F_ONE });
+        kani::cover!(o.completed && o.naddr == 1 && o.first_is_v4 && o.is_a, "query completed with one IPv4 address");
         kani::cover!(o.acc && !o.id_ok && !o.completed && !o.failed && o.port_ok && o.question_ok && o.qr, "response rejected: wrong id");
         kani::cover!(o.acc && o.id_ok && !o.port_ok && !o.completed && !o.failed, "response rejected: wrong destination port");
         kani::cover!(o.failed && o.rcode == 3, "NXDomain failed the query");
         kani::cover!(o.failed && o.rcode == 0 && o.an == 0, "answerless response failed the query");
     }
 
-    // @harness props=C19,C03 cfg=KN tier=q to=900 mem=6 unwind=7 opts=nomem covers=3 funcs=dns::Socket::accepts;dns::Socket::process;dns::Socket::start_query;wire::dns::Packet::parse_name;wire::dns::Question::parse;wire::dns::Record::parse;wire::dns::RecordData::parse;dns::eq_names;dns::copy_name bounds=query_name_<1>x<1>y_with_symbolic_label_bytes,_type_A_or_AAAA,_txid/port/timers_symbolic;_response_=_byte_template_with_symbolic_id/flags/QDCOUNT/ANCOUNT/NSCOUNT/ARCOUNT,_question_<1>x<1>y_with_symbolic_label_bytes_and_TYPE,_concrete_record_layout_per_arm_with_symbolic_TTL/RDATA;_source_any_IPv4_or_2001:db8::x,_ports_any;_arms:_the_single_answer_record_(owner_0xc00c)_is_a_CNAME_with_RDATA_<1>x+pointer_to_the_question's_last_label_/_a_CNAME_with_RDATA_<2>xx<0>_/_an_NS_record
+    // @harness props=C19,C03 cfg=KN tier=q to=900 mem=6 unwind=7 opts=nomem covers=3 funcs=dns::Socket::accepts;dns::Socket::process;dns::Socket::start_query;wire::dns::Packet::parse_name;wire::dns::Question::parse;wire::dns::Record::parse;wire::dns::RecordData::parse;dns::eq_names;dns::copy_name bounds=query_name_<1>x<1>y_with_symbolic_label_bytes,_type_A_or_AAAA,_txid/port/timers_symbolic;_response_=_byte_template_with_symbolic_id/flags/QDCOUNT/ANCOUNT/NSCOUNT/ARCOUNT,_question_<1>x<1>y_with_symbolic_label_bytes_and_TYPE,_concrete_record_layout_per_arm_with_symbolic_TTL/RDATA;_source_any_IPv4_or_2001:db8::x,_ports_any;_arms:_one_AAAA_record_/_one_NS_record_owned_by_pointer_0xc00c
     #[kani::proof]
-    pub(crate) fn dns_process_no_address() {
-        let (sel, o) = one_of!(
-            Form { rd: [Rd::CnameLabelPtr(QSUF_OFF), Rd::A], ..F_ONE },
-            Form { rd: [Rd::CnameInline, Rd::A], ..F_ONE },
-            Form { rd: [Rd::Other, Rd::A], ..F_ONE },
-        );
+    pub(crate) fn dns_process_ptrq_aaaa_ns() {
+        let (sel, o) = one_of!(Form { rd: [Rd::Aaaa, Rd::A], complete: true, ..F_ONE }, Form { rd: [Rd::Other, Rd::A], ..F_ONE });
+        if sel == 1 {
+            assert!(!o.completed, "prop:c19_no_completion_without_address_record");
+        }
+        kani::cover!(sel == 0 && o.completed && !o.first_is_v4 && !o.is_a, "query completed with one IPv6 address");
+        kani::cover!(sel == 0 && o.acc && o.id_ok && o.port_ok && o.qr && !o.question_ok && !o.completed && !o.failed, "response rejected: other question");
+        kani::cover!(sel == 1 && o.failed && o.rcode == 0 && o.an == 1, "NS answer failed the query");
+    }
+
+    // @harness props=C19,C03 cfg=KN tier=q to=900 mem=6 unwind=7 opts=nomem covers=2 funcs=dns::Socket::accepts;dns::Socket::process;dns::Socket::start_query;wire::dns::Packet::parse_name;wire::dns::Question::parse;wire::dns::Record::parse;wire::dns::RecordData::parse;dns::eq_names;dns::copy_name bounds=query_name_<1>x<1>y_with_symbolic_label_bytes,_type_A_or_AAAA,_txid/port/timers_symbolic;_response_=_byte_template_with_symbolic_id/flags/QDCOUNT/ANCOUNT/NSCOUNT/ARCOUNT,_question_<1>x<1>y_with_symbolic_label_bytes_and_TYPE,_concrete_record_layout_per_arm_with_symbolic_TTL/RDATA;_source_any_IPv4_or_2001:db8::x,_ports_any;_arms:_the_single_answer_record_(owner_0xc00c)_is_a_CNAME_with_RDATA_<1>x+pointer_to_the_question's_last_label_/_with_RDATA_<2>xx<0>
+    #[kani::proof]
+    pub(crate) fn dns_process_cname_only() {
+        let (sel, o) = one_of!(Form { rd: [Rd::CnameLabelPtr(QSUF_OFF), Rd::A], ..F_ONE }, Form { rd: [Rd::CnameInline, Rd::A], ..F_ONE });
         assert!(!o.completed, "prop:c19_no_completion_without_address_record");
         kani::cover!(o.failed && o.rcode == 0 && sel == 0 && o.cname_followed, "lone CNAME answer failed the query");
-        kani::cover!(o.failed && o.rcode == 0 && sel == 2, "NS answer failed the query");
         kani::cover!(o.acc && o.id_ok && o.port_ok && o.question_ok && o.qr && o.an == 2 && !o.failed, "ANCOUNT beyond the message: response dropped");
     }
 
-    // @harness props=C19,C03,C07 cfg=KN tier=q to=900 mem=6 unwind=7 opts=nomem covers=3 funcs=dns::Socket::accepts;dns::Socket::process;dns::Socket::start_query;wire::dns::Packet::parse_name;wire::dns::Question::parse;wire::dns::Record::parse;wire::dns::RecordData::parse;dns::eq_names;dns::copy_name bounds=query_name_<1>x<1>y_with_symbolic_label_bytes,_type_A_or_AAAA,_txid/port/timers_symbolic;_response_=_byte_template_with_symbolic_id/flags/QDCOUNT/ANCOUNT/NSCOUNT/ARCOUNT,_question_<1>x<1>y_with_symbolic_label_bytes_and_TYPE,_concrete_record_layout_per_arm_with_symbolic_TTL/RDATA;_source_any_IPv4_or_2001:db8::x,_ports_any;_arms:_one_A_record_whose_owner_is_inline_<1>x<1>y<0>_/_<1>x+pointer_to_the_question's_last_label_/_<1>x+pointer_to_itself
+    // @harness props=C19,C03 cfg=KN tier=q to=900 mem=6 unwind=7 opts=nomem covers=2 funcs=dns::Socket::accepts;dns::Socket::process;dns::Socket::start_query;wire::dns::Packet::parse_name;wire::dns::Question::parse;wire::dns::Record::parse;wire::dns::RecordData::parse;dns::eq_names;dns::copy_name bounds=query_name_<1>x<1>y_with_symbolic_label_bytes,_type_A_or_AAAA,_txid/port/timers_symbolic;_response_=_byte_template_with_symbolic_id/flags/QDCOUNT/ANCOUNT/NSCOUNT/ARCOUNT,_question_<1>x<1>y_with_symbolic_label_bytes_and_TYPE,_concrete_record_layout_per_arm_with_symbolic_TTL/RDATA;_source_any_IPv4_or_2001:db8::x,_ports_any;_one_A_record_whose_owner_is_written_inline_<1>x<1>y<0>_with_symbolic_label_bytes
     #[kani::proof]
-    pub(crate) fn dns_process_inline_labelptr() {
-        let (sel, o) = one_of!(
-            Form { o: [Owner::Inline, Owner::Inline], complete: true, ..F_ONE },
-            Form { o: [Owner::LabelPtr(QSUF_OFF), Owner::Inline], complete: true, ..F_ONE },
-            Form { o: [Owner::LabelPtr(SELF), Owner::Inline], ..F_ONE },
-        );
-        if sel == 2 {
-            assert!(!o.completed, "prop:c19_pointer_loop_never_completes_query");
-        }
-        kani::cover!(o.completed && o.naddr == 1 && sel == 0, "query completed from inline owner name");
-        kani::cover!(o.completed && sel == 1, "completed through label + pointer to the question's last label");
-        kani::cover!(o.failed && o.other_name && o.rcode == 0 && sel == 0, "record for another name ignored");
+    pub(crate) fn dns_process_inline() {
+        let o = process_form(Form { o: [Owner::Inline, Owner::Inline], complete: true, ..F_ONE });
+        kani::cover!(o.completed && o.naddr == 1, "query completed from inline owner name");
+        kani::cover!(o.failed && o.other_name && o.rcode == 0, "record for another name ignored");
     }
 
-    // @harness props=C19,C03,C07 cfg=KN tier=q to=900 mem=6 unwind=7 opts=nomem covers=3 funcs=dns::Socket::accepts;dns::Socket::process;dns::Socket::start_query;wire::dns::Packet::parse_name;wire::dns::Question::parse;wire::dns::Record::parse;wire::dns::RecordData::parse;dns::eq_names;dns::copy_name bounds=query_name_<1>x<1>y_with_symbolic_label_bytes,_type_A_or_AAAA,_txid/port/timers_symbolic;_response_=_byte_template_with_symbolic_id/flags/QDCOUNT/ANCOUNT/NSCOUNT/ARCOUNT,_question_<1>x<1>y_with_symbolic_label_bytes_and_TYPE,_concrete_record_layout_per_arm_with_symbolic_TTL/RDATA;_source_any_IPv4_or_2001:db8::x,_ports_any;_arms:_one_A_record_whose_owner_is_a_compression_pointer_to_itself_/_to_the_question's_last_label_/_to_the_question's_root_octet
+    // @harness props=C19,C03,C07 cfg=KN tier=q to=900 mem=6 unwind=7 opts=nomem covers=3 funcs=dns::Socket::accepts;dns::Socket::process;dns::Socket::start_query;wire::dns::Packet::parse_name;wire::dns::Question::parse;wire::dns::Record::parse;wire::dns::RecordData::parse;dns::eq_names;dns::copy_name bounds=query_name_<1>x<1>y_with_symbolic_label_bytes,_type_A_or_AAAA,_txid/port/timers_symbolic;_response_=_byte_template_with_symbolic_id/flags/QDCOUNT/ANCOUNT/NSCOUNT/ARCOUNT,_question_<1>x<1>y_with_symbolic_label_bytes_and_TYPE,_concrete_record_layout_per_arm_with_symbolic_TTL/RDATA;_source_any_IPv4_or_2001:db8::x,_ports_any;_arms:_one_A_record_whose_owner_is_<1>x+pointer_to_the_question's_last_label_/_<1>x+pointer_to_itself
     #[kani::proof]
-    pub(crate) fn dns_process_pointers_back() {
-        let (sel, o) = one_of!(
-            Form { o: [Owner::Ptr(SELF), Owner::Inline], ..F_ONE },
-            Form { o: [Owner::Ptr(QSUF_OFF), Owner::Inline], ..F_ONE },
-            Form { o: [Owner::Ptr(QROOT_OFF), Owner::Inline], ..F_ONE },
-        );
+    pub(crate) fn dns_process_labelptr() {
+        let (sel, o) = one_of!(Form { o: [Owner::LabelPtr(QSUF_OFF), Owner::Inline], complete: true, ..F_ONE }, Form { o: [Owner::LabelPtr(SELF), Owner::Inline], ..F_ONE });
+        if sel == 1 {
+            assert!(!o.completed, "prop:c19_pointer_loop_never_completes_query");
+        }
+        kani::cover!(sel == 0 && o.completed, "completed through label + pointer to the question's last label");
+        kani::cover!(sel == 0 && o.failed && o.other_name && o.rcode == 0, "label + pointer spelling another name ignored");
+        kani::cover!(sel == 1 && o.acc && o.id_ok && o.port_ok && o.question_ok && o.qr && o.an == 1 && !o.failed, "label + pointer loop: response dropped");
+    }
+
+    // @harness props=C19,C03,C07 cfg=KN tier=q to=900 mem=6 unwind=7 opts=nomem covers=2 funcs=dns::Socket::accepts;dns::Socket::process;dns::Socket::start_query;wire::dns::Packet::parse_name;wire::dns::Question::parse;wire::dns::Record::parse;wire::dns::RecordData::parse;dns::eq_names;dns::copy_name bounds=query_name_<1>x<1>y_with_symbolic_label_bytes,_type_A_or_AAAA,_txid/port/timers_symbolic;_response_=_byte_template_with_symbolic_id/flags/QDCOUNT/ANCOUNT/NSCOUNT/ARCOUNT,_question_<1>x<1>y_with_symbolic_label_bytes_and_TYPE,_concrete_record_layout_per_arm_with_symbolic_TTL/RDATA;_source_any_IPv4_or_2001:db8::x,_ports_any;_arms:_one_A_record_whose_owner_is_a_compression_pointer_to_itself_/_to_the_question's_last_label
+    #[kani::proof]
+    pub(crate) fn dns_process_ptr_self_suffix() {
+        let (sel, o) = one_of!(Form { o: [Owner::Ptr(SELF), Owner::Inline], ..F_ONE }, Form { o: [Owner::Ptr(QSUF_OFF), Owner::Inline], ..F_ONE });
         if sel == 0 {
             assert!(!o.completed, "prop:c19_pointer_loop_never_completes_query");
         }
         kani::cover!(sel == 0 && o.acc && o.id_ok && o.port_ok && o.question_ok && o.qr && o.an == 1 && !o.failed, "self-pointer: response dropped, query still pending");
         kani::cover!(sel == 1 && o.failed && o.rcode == 0 && o.other_name, "pointer to a suffix of the question name ignored");
-        kani::cover!(sel == 2 && o.failed && o.rcode == 0 && o.other_name, "pointer to the root name ignored");
     }
 
-    // @harness props=C19,C03,C07 cfg=KN tier=q to=900 mem=6 unwind=7 opts=nomem covers=3 funcs=dns::Socket::accepts;dns::Socket::process;dns::Socket::start_query;wire::dns::Packet::parse_name;wire::dns::Question::parse;wire::dns::Record::parse;wire::dns::RecordData::parse;dns::eq_names;dns::copy_name bounds=query_name_<1>x<1>y_with_symbolic_label_bytes,_type_A_or_AAAA,_txid/port/timers_symbolic;_response_=_byte_template_with_symbolic_id/flags/QDCOUNT/ANCOUNT/NSCOUNT/ARCOUNT,_question_<1>x<1>y_with_symbolic_label_bytes_and_TYPE,_concrete_record_layout_per_arm_with_symbolic_TTL/RDATA;_source_any_IPv4_or_2001:db8::x,_ports_any;_arms:_one_A_record_whose_owner_is_a_compression_pointer_into_its_own_RDATA_(forward,_symbolic_bytes)_/_to_the_message_id_(symbolic_bytes)_/_to_the_first_offset_beyond_the_message_/_to_0x3fff
+    // @harness props=C19,C03,C07 cfg=KN tier=q to=900 mem=6 unwind=7 opts=nomem covers=2 funcs=dns::Socket::accepts;dns::Socket::process;dns::Socket::start_query;wire::dns::Packet::parse_name;wire::dns::Question::parse;wire::dns::Record::parse;wire::dns::RecordData::parse;dns::eq_names;dns::copy_name bounds=query_name_<1>x<1>y_with_symbolic_label_bytes,_type_A_or_AAAA,_txid/port/timers_symbolic;_response_=_byte_template_with_symbolic_id/flags/QDCOUNT/ANCOUNT/NSCOUNT/ARCOUNT,_question_<1>x<1>y_with_symbolic_label_bytes_and_TYPE,_concrete_record_layout_per_arm_with_symbolic_TTL/RDATA;_source_any_IPv4_or_2001:db8::x,_ports_any;_arms:_one_A_record_whose_owner_is_a_compression_pointer_to_the_question's_root_octet_/_forward_into_its_own_RDATA_(symbolic_bytes)
     #[kani::proof]
-    pub(crate) fn dns_process_pointers_wild() {
+    pub(crate) fn dns_process_ptr_root_forward() {
+        let (sel, o) = one_of!(Form { o: [Owner::Ptr(QROOT_OFF), Owner::Inline], ..F_ONE }, Form { o: [Owner::Ptr(ANS_OFF + 12), Owner::Inline], ..F_ONE });
+        kani::cover!(sel == 0 && o.failed && o.rcode == 0 && o.other_name, "pointer to the root name ignored");
+        kani::cover!(sel == 1 && o.failed && o.rcode == 0, "forward pointer into RDATA: other name ignored");
+    }
+
+    // @harness props=C19,C03,C07 cfg=KN tier=q to=900 mem=8 unwind=7 opts=nomem covers=2 funcs=dns::Socket::accepts;dns::Socket::process;dns::Socket::start_query;wire::dns::Packet::parse_name;wire::dns::Question::parse;wire::dns::Record::parse;wire::dns::RecordData::parse;dns::eq_names;dns::copy_name bounds=query_name_<1>x<1>y_with_symbolic_label_bytes,_type_A_or_AAAA,_txid/port/timers_symbolic;_response_=_byte_template_with_symbolic_id/flags/QDCOUNT/ANCOUNT/NSCOUNT/ARCOUNT,_question_<1>x<1>y_with_symbolic_label_bytes_and_TYPE,_concrete_record_layout_per_arm_with_symbolic_TTL/RDATA;_source_any_IPv4_or_2001:db8::x,_ports_any;_arms:_one_A_record_whose_owner_is_a_compression_pointer_to_the_message_id_(symbolic_bytes)_/_to_the_first_offset_beyond_the_message_/_to_0x3fff
+    #[kani::proof]
+    pub(crate) fn dns_process_ptr_header_range() {
         let (sel, o) = one_of!(
-            Form { o: [Owner::Ptr(ANS_OFF + 12), Owner::Inline], ..F_ONE },
             Form { o: [Owner::Ptr(0), Owner::Inline], ..F_ONE },
             Form { o: [Owner::Ptr(ANS_OFF + 16), Owner::Inline], ..F_ONE },
             Form { o: [Owner::Ptr(0x3fff), Owner::Inline], ..F_ONE },
         );
-        if sel >= 2 {
+        if sel >= 1 {
             assert!(!o.completed, "prop:c19_out_of_range_pointer_never_completes_query");
         }
-        kani::cover!(sel == 0 && o.failed && o.rcode == 0, "forward pointer into RDATA: other name ignored");
-        kani::cover!(sel == 1 && o.failed && o.rcode == 0, "pointer to the header: other name ignored");
-        kani::cover!(sel == 2 && o.acc && o.id_ok && o.port_ok && o.question_ok && o.qr && o.an == 1 && !o.failed, "pointer beyond the message: response dropped");
+        kani::cover!(sel == 0 && o.failed && o.rcode == 0, "pointer to the header: other name ignored");
+        kani::cover!(sel == 1 && o.acc && o.id_ok && o.port_ok && o.question_ok && o.qr && o.an == 1 && !o.failed, "pointer beyond the message: response dropped");
     }
 
-    // @harness props=C19,C03 cfg=KN tier=q to=900 mem=6 unwind=7 opts=nomem covers=2 funcs=dns::Socket::accepts;dns::Socket::process;dns::Socket::start_query;wire::dns::Packet::parse_name;wire::dns::Question::parse;wire::dns::Record::parse;wire::dns::RecordData::parse;dns::eq_names;dns::copy_name bounds=query_name_<1>x<1>y_with_symbolic_label_bytes,_type_A_or_AAAA,_txid/port/timers_symbolic;_response_=_byte_template_with_symbolic_id/flags/QDCOUNT/ANCOUNT/NSCOUNT/ARCOUNT,_question_<1>x<1>y_with_symbolic_label_bytes_and_TYPE,_concrete_record_layout_per_arm_with_symbolic_TTL/RDATA;_source_any_IPv4_or_2001:db8::x,_ports_any;_arms:_CNAME_owned_by_0xc00c_(RDATA_<1>x+pointer_to_the_question's_last_label)_then_an_A_record_owned_by_a_pointer_to_that_RDATA_/_by_0xc00c
+    // @harness props=C19,C03 cfg=KN tier=q to=900 mem=6 unwind=7 opts=nomem covers=1 funcs=dns::Socket::accepts;dns::Socket::process;dns::Socket::start_query;wire::dns::Packet::parse_name;wire::dns::Question::parse;wire::dns::Record::parse;wire::dns::RecordData::parse;dns::eq_names;dns::copy_name bounds=query_name_<1>x<1>y_with_symbolic_label_bytes,_type_A_or_AAAA,_txid/port/timers_symbolic;_response_=_byte_template_with_symbolic_id/flags/QDCOUNT/ANCOUNT/NSCOUNT/ARCOUNT,_question_<1>x<1>y_with_symbolic_label_bytes_and_TYPE,_concrete_record_layout_per_arm_with_symbolic_TTL/RDATA;_source_any_IPv4_or_2001:db8::x,_ports_any;_CNAME_owned_by_0xc00c_(RDATA_<1>x+pointer_to_the_question's_last_label)_then_an_A_record_owned_by_a_pointer_to_that_RDATA
     #[kani::proof]
     pub(crate) fn dns_process_cname_then() {
-        let (sel, o) = one_of!(
-            Form { o: [Owner::Ptr(QN_OFF), Owner::Ptr(RD1)], rd: [Rd::CnameLabelPtr(QSUF_OFF), Rd::A], ..F_TWO },
-            Form { o: [Owner::Ptr(QN_OFF), Owner::Ptr(QN_OFF)], rd: [Rd::CnameLabelPtr(QSUF_OFF), Rd::A], ..F_TWO },
-        );
-        kani::cover!(sel == 0 && o.completed && o.cname_followed && o.naddr == 1, "CNAME followed");
-        kani::cover!(sel == 1 && o.failed && o.cname_followed && o.other_name && o.rcode == 0, "record for the original name after a CNAME ignored");
+        let o = process_form(Form { o: [Owner::Ptr(QN_OFF), Owner::Ptr(RD1)], rd: [Rd::CnameLabelPtr(QSUF_OFF), Rd::A], ..F_TWO });
+        kani::cover!(o.completed && o.cname_followed && o.naddr == 1, "CNAME followed");
     }
 
-    // @harness props=C19,C03,C07 cfg=KN tier=q to=900 mem=6 unwind=7 opts=nomem covers=3 funcs=dns::Socket::accepts;dns::Socket::process;dns::Socket::start_query;wire::dns::Packet::parse_name;wire::dns::Question::parse;wire::dns::Record::parse;wire::dns::RecordData::parse;dns::eq_names;dns::copy_name bounds=query_name_<1>x<1>y_with_symbolic_label_bytes,_type_A_or_AAAA,_txid/port/timers_symbolic;_response_=_byte_template_with_symbolic_id/flags/QDCOUNT/ANCOUNT/NSCOUNT/ARCOUNT,_question_<1>x<1>y_with_symbolic_label_bytes_and_TYPE,_concrete_record_layout_per_arm_with_symbolic_TTL/RDATA;_source_any_IPv4_or_2001:db8::x,_ports_any;_arms:_CNAME_owned_by_0xc00c_with_RDATA_<2>xx<0>_then_an_A_record_with_inline_owner_/_RDATA_<1>x+pointer_to_the_question_name_(three_labels)_/_RDATA_<1>x+pointer_to_itself,_each_then_an_A_record_owned_by_a_pointer_to_that_RDATA
+    // @harness props=C19,C03 cfg=KN tier=q to=900 mem=6 unwind=7 opts=nomem covers=1 funcs=dns::Socket::accepts;dns::Socket::process;dns::Socket::start_query;wire::dns::Packet::parse_name;wire::dns::Question::parse;wire::dns::Record::parse;wire::dns::RecordData::parse;dns::eq_names;dns::copy_name bounds=query_name_<1>x<1>y_with_symbolic_label_bytes,_type_A_or_AAAA,_txid/port/timers_symbolic;_response_=_byte_template_with_symbolic_id/flags/QDCOUNT/ANCOUNT/NSCOUNT/ARCOUNT,_question_<1>x<1>y_with_symbolic_label_bytes_and_TYPE,_concrete_record_layout_per_arm_with_symbolic_TTL/RDATA;_source_any_IPv4_or_2001:db8::x,_ports_any;_CNAME_owned_by_0xc00c_then_an_A_record_owned_by_0xc00c_(the_original_name)
     #[kani::proof]
-    pub(crate) fn dns_process_cname_forms() {
-        let (sel, o) = one_of!(
-            Form { o: [Owner::Ptr(QN_OFF), Owner::Inline], rd: [Rd::CnameInline, Rd::A], ..F_TWO },
-            Form { o: [Owner::Ptr(QN_OFF), Owner::Ptr(RD1)], rd: [Rd::CnameLabelPtr(QN_OFF), Rd::A], ..F_TWO },
-            Form { o: [Owner::Ptr(QN_OFF), Owner::Ptr(RD1)], rd: [Rd::CnameLabelPtr(SELF), Rd::A], ..F_TWO },
-        );
-        if sel == 2 {
-            assert!(!o.completed, "prop:c19_pointer_loop_never_completes_query");
-        }
-        kani::cover!(sel == 0 && o.failed && o.cname_followed && o.rcode == 0, "address for a name other than the CNAME target ignored");
-        kani::cover!(sel == 1 && o.completed, "CNAME to a three-label name followed");
-        kani::cover!(sel == 2 && o.acc && o.id_ok && o.port_ok && o.question_ok && o.qr && o.an == 2 && !o.completed && !o.failed, "CNAME pointing at itself: response dropped");
+    pub(crate) fn dns_process_cname_then_original() {
+        let o = process_form(Form { o: [Owner::Ptr(QN_OFF), Owner::Ptr(QN_OFF)], rd: [Rd::CnameLabelPtr(QSUF_OFF), Rd::A], ..F_TWO });
+        kani::cover!(o.failed && o.cname_followed && o.other_name && o.rcode == 0, "record for the original name after a CNAME ignored");
     }
 
-    // @harness props=C19,C03 cfg=KN tier=q to=900 mem=6 unwind=7 opts=nomem covers=4 funcs=dns::Socket::accepts;dns::Socket::process;dns::Socket::start_query;wire::dns::Packet::parse_name;wire::dns::Question::parse;wire::dns::Record::parse;wire::dns::RecordData::parse;dns::eq_names;dns::copy_name bounds=query_name_<1>x<1>y_with_symbolic_label_bytes,_type_A_or_AAAA,_txid/port/timers_symbolic;_response_=_byte_template_with_symbolic_id/flags/QDCOUNT/ANCOUNT/NSCOUNT/ARCOUNT,_question_<1>x<1>y_with_symbolic_label_bytes_and_TYPE,_concrete_record_layout_per_arm_with_symbolic_TTL/RDATA;_source_any_IPv4_or_2001:db8::x,_ports_any;_arms:_two_answer_records:_A+A_owned_by_0xc00c_/_A_owned_by_0xc00c_+_A_with_inline_owner_/_NS+A_owned_by_0xc00c
+    // @harness props=C19,C03 cfg=KN tier=q to=900 mem=6 unwind=7 opts=nomem covers=1 funcs=dns::Socket::accepts;dns::Socket::process;dns::Socket::start_query;wire::dns::Packet::parse_name;wire::dns::Question::parse;wire::dns::Record::parse;wire::dns::RecordData::parse;dns::eq_names;dns::copy_name bounds=query_name_<1>x<1>y_with_symbolic_label_bytes,_type_A_or_AAAA,_txid/port/timers_symbolic;_response_=_byte_template_with_symbolic_id/flags/QDCOUNT/ANCOUNT/NSCOUNT/ARCOUNT,_question_<1>x<1>y_with_symbolic_label_bytes_and_TYPE,_concrete_record_layout_per_arm_with_symbolic_TTL/RDATA;_source_any_IPv4_or_2001:db8::x,_ports_any;_CNAME_owned_by_0xc00c_with_RDATA_<2>xx<0>_then_an_A_record_with_inline_owner_<1>x<1>y<0>
     #[kani::proof]
-    pub(crate) fn dns_process_two_records() {
-        let (sel, o) = one_of!(
-            Form { ..F_TWO },
-            Form { o: [Owner::Ptr(QN_OFF), Owner::Inline], ..F_TWO },
-            Form { rd: [Rd::Other, Rd::A], ..F_TWO },
-        );
-        kani::cover!(sel == 0 && o.completed && o.naddr == 2, "query completed with two addresses");
-        kani::cover!(sel == 1 && o.completed && o.naddr == 1 && o.other_name, "second record for another name ignored");
+    pub(crate) fn dns_process_cname_inline() {
+        let o = process_form(Form { o: [Owner::Ptr(QN_OFF), Owner::Inline], rd: [Rd::CnameInline, Rd::A], ..F_TWO });
+        kani::cover!(o.failed && o.cname_followed && o.rcode == 0, "address for a name other than the CNAME target ignored");
+    }
+
+    // @harness props=C19,C03,C07 cfg=KN tier=q to=900 mem=6 unwind=7 opts=nomem covers=1 funcs=dns::Socket::accepts;dns::Socket::process;dns::Socket::start_query;wire::dns::Packet::parse_name;wire::dns::Question::parse;wire::dns::Record::parse;wire::dns::RecordData::parse;dns::eq_names;dns::copy_name bounds=query_name_<1>x<1>y_with_symbolic_label_bytes,_type_A_or_AAAA,_txid/port/timers_symbolic;_response_=_byte_template_with_symbolic_id/flags/QDCOUNT/ANCOUNT/NSCOUNT/ARCOUNT,_question_<1>x<1>y_with_symbolic_label_bytes_and_TYPE,_concrete_record_layout_per_arm_with_symbolic_TTL/RDATA;_source_any_IPv4_or_2001:db8::x,_ports_any;_CNAME_owned_by_0xc00c_with_RDATA_<1>x+pointer_to_the_question_name_(three_labels)_then_an_A_record_owned_by_a_pointer_to_that_RDATA
+    #[kani::proof]
+    pub(crate) fn dns_process_cname_long() {
+        let o = process_form(Form { o: [Owner::Ptr(QN_OFF), Owner::Ptr(RD1)], rd: [Rd::CnameLabelPtr(QN_OFF), Rd::A], ..F_TWO });
+        kani::cover!(o.completed && o.cname_followed, "CNAME to a three-label name followed");
+    }
+
+    // @harness props=C19,C03,C07 cfg=KN tier=q to=900 mem=6 unwind=7 opts=nomem covers=1 funcs=dns::Socket::accepts;dns::Socket::process;dns::Socket::start_query;wire::dns::Packet::parse_name;wire::dns::Question::parse;wire::dns::Record::parse;wire::dns::RecordData::parse;dns::eq_names;dns::copy_name bounds=query_name_<1>x<1>y_with_symbolic_label_bytes,_type_A_or_AAAA,_txid/port/timers_symbolic;_response_=_byte_template_with_symbolic_id/flags/QDCOUNT/ANCOUNT/NSCOUNT/ARCOUNT,_question_<1>x<1>y_with_symbolic_label_bytes_and_TYPE,_concrete_record_layout_per_arm_with_symbolic_TTL/RDATA;_source_any_IPv4_or_2001:db8::x,_ports_any;_CNAME_owned_by_0xc00c_with_RDATA_<1>x+pointer_to_itself_then_an_A_record_owned_by_a_pointer_to_that_RDATA
+    #[kani::proof]
+    pub(crate) fn dns_process_cname_loop() {
+        let o = process_form(Form { o: [Owner::Ptr(QN_OFF), Owner::Ptr(RD1)], rd: [Rd::CnameLabelPtr(SELF), Rd::A], ..F_TWO });
+        assert!(!o.completed, "prop:c19_pointer_loop_never_completes_query");
+        kani::cover!(o.acc && o.id_ok && o.port_ok && o.question_ok && o.qr && o.an == 2 && !o.completed && !o.failed, "CNAME pointing at itself: response dropped");
+    }
+
+    // @harness props=C19,C03 cfg=KN tier=q to=900 mem=6 unwind=7 opts=nomem covers=2 funcs=dns::Socket::accepts;dns::Socket::process;dns::Socket::start_query;wire::dns::Packet::parse_name;wire::dns::Question::parse;wire::dns::Record::parse;wire::dns::RecordData::parse;dns::eq_names;dns::copy_name bounds=query_name_<1>x<1>y_with_symbolic_label_bytes,_type_A_or_AAAA,_txid/port/timers_symbolic;_response_=_byte_template_with_symbolic_id/flags/QDCOUNT/ANCOUNT/NSCOUNT/ARCOUNT,_question_<1>x<1>y_with_symbolic_label_bytes_and_TYPE,_concrete_record_layout_per_arm_with_symbolic_TTL/RDATA;_source_any_IPv4_or_2001:db8::x,_ports_any;_two_A_records_owned_by_0xc00c
+    #[kani::proof]
+    pub(crate) fn dns_process_two_a() {
+        let o = process_form(F_TWO);
+        kani::cover!(o.completed && o.naddr == 2, "query completed with two addresses");
         kani::cover!(o.completed && o.an == 1, "record beyond ANCOUNT not used");
-        kani::cover!(sel == 2 && o.completed && o.naddr == 1, "NS record skipped, address taken");
     }
 
-    // @harness props=C19,C03 cfg=KN tier=t to=900 mem=6 unwind=7 opts=nomem covers=2 funcs=dns::Socket::accepts;dns::Socket::process;dns::Socket::start_query;wire::dns::Packet::parse_name;wire::dns::Question::parse;wire::dns::Record::parse;wire::dns::RecordData::parse;dns::eq_names;dns::copy_name bounds=query_name_<1>x<1>y_with_symbolic_label_bytes,_type_A_or_AAAA,_txid/port/timers_symbolic;_response_=_byte_template_with_symbolic_id/flags/QDCOUNT/ANCOUNT/NSCOUNT/ARCOUNT,_question_<1>x<1>y_with_symbolic_label_bytes_and_TYPE,_concrete_record_layout_per_arm_with_symbolic_TTL/RDATA;_source_any_IPv4_or_2001:db8::x,_ports_any;_arms:_two_answer_records_owned_by_0xc00c:_A+AAAA_/_AAAA+AAAA
+    // @harness props=C19,C03 cfg=KN tier=q to=900 mem=6 unwind=7 opts=nomem covers=1 funcs=dns::Socket::accepts;dns::Socket::process;dns::Socket::start_query;wire::dns::Packet::parse_name;wire::dns::Question::parse;wire::dns::Record::parse;wire::dns::RecordData::parse;dns::eq_names;dns::copy_name bounds=query_name_<1>x<1>y_with_symbolic_label_bytes,_type_A_or_AAAA,_txid/port/timers_symbolic;_response_=_byte_template_with_symbolic_id/flags/QDCOUNT/ANCOUNT/NSCOUNT/ARCOUNT,_question_<1>x<1>y_with_symbolic_label_bytes_and_TYPE,_concrete_record_layout_per_arm_with_symbolic_TTL/RDATA;_source_any_IPv4_or_2001:db8::x,_ports_any;_A_record_owned_by_0xc00c_then_A_record_with_inline_owner_<1>x<1>y<0>
+    #[kani::proof]
+    pub(crate) fn dns_process_two_other_name() {
+        let o = process_form(Form { o: [Owner::Ptr(QN_OFF), Owner::Inline], ..F_TWO });
+        kani::cover!(o.completed && o.naddr == 1 && o.other_name && o.an == 2, "second record for another name ignored");
+    }
+
+    // @harness props=C19,C03 cfg=KN tier=q to=900 mem=6 unwind=7 opts=nomem covers=1 funcs=dns::Socket::accepts;dns::Socket::process;dns::Socket::start_query;wire::dns::Packet::parse_name;wire::dns::Question::parse;wire::dns::Record::parse;wire::dns::RecordData::parse;dns::eq_names;dns::copy_name bounds=query_name_<1>x<1>y_with_symbolic_label_bytes,_type_A_or_AAAA,_txid/port/timers_symbolic;_response_=_byte_template_with_symbolic_id/flags/QDCOUNT/ANCOUNT/NSCOUNT/ARCOUNT,_question_<1>x<1>y_with_symbolic_label_bytes_and_TYPE,_concrete_record_layout_per_arm_with_symbolic_TTL/RDATA;_source_any_IPv4_or_2001:db8::x,_ports_any;_NS_record_then_A_record,_both_owned_by_0xc00c
+    #[kani::proof]
+    pub(crate) fn dns_process_ns_then_a() {
+        let o = process_form(Form { rd: [Rd::Other, Rd::A], ..F_TWO });
+        kani::cover!(o.completed && o.naddr == 1, "NS record skipped, address taken");
+    }
+
+    // @harness props=C19,C03 cfg=KN tier=t to=900 mem=10 unwind=7 opts=nomem covers=2 funcs=dns::Socket::accepts;dns::Socket::process;dns::Socket::start_query;wire::dns::Packet::parse_name;wire::dns::Question::parse;wire::dns::Record::parse;wire::dns::RecordData::parse;dns::eq_names;dns::copy_name bounds=query_name_<1>x<1>y_with_symbolic_label_bytes,_type_A_or_AAAA,_txid/port/timers_symbolic;_response_=_byte_template_with_symbolic_id/flags/QDCOUNT/ANCOUNT/NSCOUNT/ARCOUNT,_question_<1>x<1>y_with_symbolic_label_bytes_and_TYPE,_concrete_record_layout_per_arm_with_symbolic_TTL/RDATA;_source_any_IPv4_or_2001:db8::x,_ports_any;_arms:_two_answer_records_owned_by_0xc00c:_A+AAAA_/_AAAA+AAAA
     #[kani::proof]
     pub(crate) fn dns_process_two_records_mixed() {
         let (sel, o) = one_of!(Form { rd: [Rd::A, Rd::Aaaa], ..F_TWO }, Form { rd: [Rd::Aaaa, Rd::Aaaa], ..F_TWO });
@@ -764,22 +801,25 @@ mod v_socket_dns {
         kani::cover!(sel == 1 && o.completed && o.naddr == 2, "query completed with two IPv6 addresses");
     }
 
-    // @harness props=C19,C03,C07 cfg=KN tier=q to=900 mem=6 unwind=7 opts=nomem covers=3 funcs=dns::Socket::accepts;dns::Socket::process;dns::Socket::start_query;wire::dns::Packet::parse_name;wire::dns::Question::parse;wire::dns::Record::parse;wire::dns::RecordData::parse;dns::eq_names;dns::copy_name bounds=query_name_<1>x<1>y_with_symbolic_label_bytes,_type_A_or_AAAA,_txid/port/timers_symbolic;_response_=_byte_template_with_symbolic_id/flags/QDCOUNT/ANCOUNT/NSCOUNT/ARCOUNT,_question_<1>x<1>y_with_symbolic_label_bytes_and_TYPE,_concrete_record_layout_per_arm_with_symbolic_TTL/RDATA;_source_any_IPv4_or_2001:db8::x,_ports_any;_arms:_dns_process_ptrq's_A_template_with_one_defect:_question_CLASS_2_/_record_CLASS_2_/_RDLENGTH_3_/_RDLENGTH_5
+    // @harness props=C19,C03,C07 cfg=KN tier=q to=900 mem=6 unwind=7 opts=nomem covers=2 funcs=dns::Socket::accepts;dns::Socket::process;dns::Socket::start_query;wire::dns::Packet::parse_name;wire::dns::Question::parse;wire::dns::Record::parse;wire::dns::RecordData::parse;dns::eq_names;dns::copy_name bounds=query_name_<1>x<1>y_with_symbolic_label_bytes,_type_A_or_AAAA,_txid/port/timers_symbolic;_response_=_byte_template_with_symbolic_id/flags/QDCOUNT/ANCOUNT/NSCOUNT/ARCOUNT,_question_<1>x<1>y_with_symbolic_label_bytes_and_TYPE,_concrete_record_layout_per_arm_with_symbolic_TTL/RDATA;_source_any_IPv4_or_2001:db8::x,_ports_any;_arms:_dns_process_ptrq_a's_template_with_question_CLASS_2_/_record_CLASS_2
     #[kani::proof]
-    pub(crate) fn dns_process_malformed() {
-        let (sel, o) = one_of!(
-            Form { qclass: 2, ..F_ONE },
-            Form { class: [2, 1], ..F_ONE },
-            Form { rdlen_delta: [-1, 0], ..F_ONE },
-            Form { rdlen_delta: [1, 0], ..F_ONE },
-        );
+    pub(crate) fn dns_process_bad_class() {
+        let (sel, o) = one_of!(Form { qclass: 2, ..F_ONE }, Form { class: [2, 1], ..F_ONE });
         assert!(!o.completed, "prop:c19_malformed_response_never_completes_query");
         kani::cover!(sel == 0 && o.acc && o.id_ok && o.port_ok && o.qr && o.an == 1 && !o.failed, "question of another class: response dropped");
         kani::cover!(sel == 1 && o.acc && o.id_ok && o.port_ok && o.question_ok && o.qr && o.an == 1 && !o.failed, "record of another class: response dropped");
-        kani::cover!(sel == 2 && o.acc && o.id_ok && o.port_ok && o.question_ok && o.qr && o.an == 1 && !o.failed, "A record with 3 RDATA bytes: response dropped");
     }
 
-    // @harness props=C19,C03,C07 cfg=KN tier=q to=900 mem=6 unwind=7 opts=nomem covers=4 funcs=dns::Socket::accepts;dns::Socket::process;dns::Socket::start_query;wire::dns::Packet::parse_name;wire::dns::Question::parse;wire::dns::Record::parse;wire::dns::RecordData::parse;dns::eq_names;dns::copy_name bounds=query_name_<1>x<1>y_with_symbolic_label_bytes,_type_A_or_AAAA,_txid/port/timers_symbolic;_response_=_byte_template_with_symbolic_id/flags/QDCOUNT/ANCOUNT/NSCOUNT/ARCOUNT,_question_<1>x<1>y_with_symbolic_label_bytes_and_TYPE,_concrete_record_layout_per_arm_with_symbolic_TTL/RDATA;_source_any_IPv4_or_2001:db8::x,_ports_any;_arms:_dns_process_ptrq's_A_template_cut_to_11_/_12_/_20_/_21_/_32_/_36_of_its_37_bytes
+    // @harness props=C19,C03,C07 cfg=KN tier=q to=900 mem=6 unwind=7 opts=nomem covers=2 funcs=dns::Socket::accepts;dns::Socket::process;dns::Socket::start_query;wire::dns::Packet::parse_name;wire::dns::Question::parse;wire::dns::Record::parse;wire::dns::RecordData::parse;dns::eq_names;dns::copy_name bounds=query_name_<1>x<1>y_with_symbolic_label_bytes,_type_A_or_AAAA,_txid/port/timers_symbolic;_response_=_byte_template_with_symbolic_id/flags/QDCOUNT/ANCOUNT/NSCOUNT/ARCOUNT,_question_<1>x<1>y_with_symbolic_label_bytes_and_TYPE,_concrete_record_layout_per_arm_with_symbolic_TTL/RDATA;_source_any_IPv4_or_2001:db8::x,_ports_any;_arms:_dns_process_ptrq_a's_template_with_RDLENGTH_3_/_RDLENGTH_5_for_the_A_record
+    #[kani::proof]
+    pub(crate) fn dns_process_bad_rdlength() {
+        let (sel, o) = one_of!(Form { rdlen_delta: [-1, 0], ..F_ONE }, Form { rdlen_delta: [1, 0], ..F_ONE });
+        assert!(!o.completed, "prop:c19_malformed_response_never_completes_query");
+        kani::cover!(sel == 0 && o.acc && o.id_ok && o.port_ok && o.question_ok && o.qr && o.an == 1 && !o.failed, "A record with 3 RDATA bytes: response dropped");
+        kani::cover!(sel == 1 && o.acc && o.id_ok && o.port_ok && o.question_ok && o.qr && o.an == 1 && !o.failed, "RDLENGTH beyond the message: response dropped");
+    }
+
+    // @harness props=C19,C03,C07 cfg=KN tier=q to=900 mem=6 unwind=7 opts=nomem covers=4 funcs=dns::Socket::accepts;dns::Socket::process;dns::Socket::start_query;wire::dns::Packet::parse_name;wire::dns::Question::parse;wire::dns::Record::parse;wire::dns::RecordData::parse;dns::eq_names;dns::copy_name bounds=query_name_<1>x<1>y_with_symbolic_label_bytes,_type_A_or_AAAA,_txid/port/timers_symbolic;_response_=_byte_template_with_symbolic_id/flags/QDCOUNT/ANCOUNT/NSCOUNT/ARCOUNT,_question_<1>x<1>y_with_symbolic_label_bytes_and_TYPE,_concrete_record_layout_per_arm_with_symbolic_TTL/RDATA;_source_any_IPv4_or_2001:db8::x,_ports_any;_arms:_dns_process_ptrq_a's_template_cut_to_11_/_12_/_20_/_21_/_32_/_36_of_its_37_bytes_(measured_through_the_runner:_327_s_on_the_loaded_machine)
     #[kani::proof]
     pub(crate) fn dns_process_truncated() {
         let (sel, o) = one_of!(
@@ -916,10 +956,11 @@ mod v_socket_dns {
         kani::cover!(!q_ok && !r_ok && len == N, "16 bytes rejected by both parsers");
     }
 
-    // @harness props=C19,C07,C03 cfg=KN tier=q to=900 mem=8 unwind=10 opts=term covers=3 funcs=dns::copy_name;dns::eq_names;wire::dns::Packet::parse_name bounds=message_of_0..=8_fully_symbolic_bytes;_name_at_any_offset_copied_into_a_64-byte_name_buffer_and_compared_with_itself;_unwind_10_=_N+2
+    // (8 bytes: out of memory at 8 GB after 350 s)
+    // @harness props=C19,C07,C03 cfg=KN tier=q to=900 mem=8 unwind=8 opts=term covers=3 funcs=dns::copy_name;dns::eq_names;wire::dns::Packet::parse_name bounds=message_of_0..=6_fully_symbolic_bytes;_name_at_any_offset_copied_into_a_64-byte_name_buffer_and_compared_with_itself;_unwind_8_=_N+2
     #[kani::proof]
     pub(crate) fn dns_name_copy_free() {
-        const N: usize = 8;
+        const N: usize = 6;
         let bytes: [u8; N] = kani::any();
         let len = any_le(N);
         let buf = &bytes[..len];
@@ -1162,7 +1203,7 @@ mod v_socket_dns {
         kani::cover!(e.seen && !emit_ok, "device refused the packet");
     }
 
-    // @harness props=C19,C13 cfg=KN tier=q to=900 mem=4 unwind=7 opts=nomem covers=4 funcs=dns::Socket::poll_at;dns::Socket::dispatch bounds=pre-states_of_dns_dispatch_step;_probe_instant_anywhere_relative_to_poll_at
+    // @harness props=C19,C13 cfg=KN tier=q to=900 mem=6 unwind=7 opts=nomem covers=4 funcs=dns::Socket::poll_at;dns::Socket::dispatch bounds=pre-states_of_dns_dispatch_step;_probe_instant_anywhere_relative_to_poll_at
     #[kani::proof]
     pub(crate) fn dns_poll_at_step() {
         dns_env!(dev, iface, cx, now);
@@ -1266,7 +1307,7 @@ mod v_socket_dns {
         kani::cover!(o.nofree_seen, "full socket refused a query");
     }
 
-    // @harness props=C19 cfg=KN tier=q to=900 mem=4 unwind=10 opts=nomem covers=3 funcs=dns::Socket::get_query_result;dns::Socket::cancel_query;dns::Socket::start_query;dns::Socket::find_free_query bounds=socket_with_2_query_slots,_slot_0_Pending/Completed(1..2_addresses)/Failed;_get_query_result_or_cancel_query,_then_the_slot_is_reused
+    // @harness props=C19 cfg=KN tier=q to=900 mem=6 unwind=10 opts=nomem covers=3 funcs=dns::Socket::get_query_result;dns::Socket::cancel_query;dns::Socket::start_query;dns::Socket::find_free_query bounds=socket_with_2_query_slots,_slot_0_Pending/Completed(1..2_addresses)/Failed;_get_query_result_or_cancel_query,_then_the_slot_is_reused
     #[kani::proof]
     pub(crate) fn dns_api_result() {
         let which: u8 = kani::any();
@@ -1437,13 +1478,12 @@ mod v_socket_dns {
         let mut slots: [Option<DnsQuery>; 1 + PAD] = [None, None, None];
         let servers = [IpAddress::Ipv4(S4)];
         let mut s = Socket::new(&servers[..], &mut slots[..1]);
-        let a = [b'a'; 66];
-        let mut b = [b'a'; 66];
-        b[63] = b'.';
-        let s62 = ascii_str(&a[..DNS_MAX_NAME_SIZE - 2]);
-        let s63 = ascii_str(&a[..63]);
-        let s64 = ascii_str(&a[..64]);
-        let s63_1 = ascii_str(&b[..65]); // 63 x 'a' + ".a"
+        // string literals: arrays of more than 64 symbolic-execution elements are not constant-propagated
+        let s62 = "aaaaaaaaaaaaaaaaaaaaaaaaaaaaaaaaaaaaaaaaaaaaaaaaaaaaaaaaaaaaaa";
+        let s63 = "aaaaaaaaaaaaaaaaaaaaaaaaaaaaaaaaaaaaaaaaaaaaaaaaaaaaaaaaaaaaaaa";
+        let s64 = "aaaaaaaaaaaaaaaaaaaaaaaaaaaaaaaaaaaaaaaaaaaaaaaaaaaaaaaaaaaaaaaa";
+        let s63_1 = "aaaaaaaaaaaaaaaaaaaaaaaaaaaaaaaaaaaaaaaaaaaaaaaaaaaaaaaaaaaaaaa.a";
+        assert!(s62.len() == DNS_MAX_NAME_SIZE - 2 && s63.len() == 63 && s64.len() == 64 && s63_1.len() == 65, "inv:harness_literals");
         assert!(DNS_MAX_NAME_SIZE == 64, "inv:harness_written_for_DNS_MAX_NAME_SIZE_64");
         // a label of more than 63 bytes cannot be encoded
         assert!(matches!(s.start_query(cx, s64, Type::A), Err(StartQueryError::InvalidName)), "prop:c19_label_over_63_bytes_is_invalid");
@@ -1451,9 +1491,9 @@ mod v_socket_dns {
         assert!(matches!(s.start_query(cx, s63, Type::A), Err(StartQueryError::NameTooLong)), "prop:c19_name_over_max_size_is_too_long");
         assert!(matches!(s.start_query(cx, s63_1, Type::A), Err(StartQueryError::NameTooLong)), "prop:c19_name_over_max_size_is_too_long");
         assert!(s.queries[0].is_none(), "prop:c19_refused_name_takes_no_slot");
-        let raw = [1u8; 66];
+        let raw = s64.as_bytes();
         assert!(
-            matches!(s.start_query_raw(cx, &raw[..DNS_MAX_NAME_SIZE + 1], Type::A, MulticastDns::Disabled), Err(StartQueryError::NameTooLong)),
+            matches!(s.start_query_raw(cx, &s63_1.as_bytes()[..DNS_MAX_NAME_SIZE + 1], Type::A, MulticastDns::Disabled), Err(StartQueryError::NameTooLong)),
             "prop:c19_name_over_max_size_is_too_long"
         );
         assert!(s.queries[0].is_none(), "prop:c19_refused_name_takes_no_slot");
